@@ -495,6 +495,29 @@ func genRT(out *vc.Out, r *vc.Rand, thorough bool) {
 			}
 		}
 	}
+	// (1a) a packet the reader rejects by its flag bits (0x80 = encrypted, not supported here) in the middle of a
+	// sequence: the packets before it are decoded, it is consumed exactly, and the following packets' bytes are
+	// still unread (judged by holdsSeq / theorem C01_seq_main)
+	for _, base := range []int{0x01, 0x10, 0x11, 0x20, 0x22, 0x24, 0x30} {
+		for _, c1 := range []bool{false, true} {
+			for _, pre := range []int{0, 2} {
+				var pk []pkt
+				for i := 0; i < pre; i++ {
+					t := vc.Pick(r, definedTypes)
+					pk = append(pk, pkt{t, r.Bool(), genBody(r, t, small)})
+				}
+				pk = append(pk, pkt{0x80 | base, c1, genBody(r, base, mid)})
+				for i, m := 0, 1+r.Intn(3); i < m; i++ {
+					t := vc.Pick(r, definedTypes)
+					pk = append(pk, pkt{t, r.Bool(), genBody(r, t, small)})
+				}
+				n := wireLen(pk)
+				emitRT(out, pk, nil, false, "rejected-flag")
+				emitRT(out, pk, ones(n), false, "rejected-flag")
+				emitRT(out, pk, randSizes(r, n), r.Bool(), "rejected-flag")
+			}
+		}
+	}
 	// (1b) empty bodies under message-per-write chunking (regression witness for the zero-length Write)
 	for _, t1 := range definedTypes {
 		pk := []pkt{{t1, false, nil}, {0x22, false, []byte{1, 2}}, {t1, true, nil}}
